@@ -31,6 +31,40 @@ Theorem c12_call_noise_replaces_stored :
 Proof. intros K. exact (@R_fixed_call K). Qed.
 Print Assumptions c12_call_noise_replaces_stored.
 
+(* get_fantasy_likelihood(noise=new): the likelihood of the n old points followed by the m appended points
+   adds diag([old noise; new noise]) + [learned] I: entries, and as the block diagonal of the two
+   likelihoods' own noise operators (old points first).  All n, m. *)
+Theorem c12_fantasy_noise_concatenated :
+  forall (K : Fld) n m old new l i j,
+    R_fantasy n m old new l i j =
+    if Nat.eqb i j then fadd (if Nat.ltb i n then old i else new (i - n)%nat) (opt0 l) else f0.
+Proof. intros K. exact (@R_fantasy_entry K). Qed.
+Print Assumptions c12_fantasy_noise_concatenated.
+
+Theorem c12_fantasy_noise_blocks :
+  forall (K : Fld) n m old new l,
+    meq (n + m) (n + m) (R_fantasy n m old new l)
+        (blk n n (R_fixed n n old None l) mzero mzero (R_fixed m m new None l)).
+Proof. intros K. exact (@R_fantasy_blocks K). Qed.
+Print Assumptions c12_fantasy_noise_blocks.
+
+(* a fantasy likelihood of a fantasy likelihood stores old ++ new1 ++ new2 *)
+Theorem c12_fantasy_noise_twice :
+  forall (K : Fld) n m1 m2 old new1 new2 l,
+    meq (n + m1 + m2) (n + m1 + m2)
+        (R_fantasy (n + m1) m2 (cat_fn n old new1) new2 l)
+        (R_fantasy n (m1 + m2) old (cat_fn m1 new1 new2) l).
+Proof. intros K. exact (@R_fantasy_twice K). Qed.
+Print Assumptions c12_fantasy_noise_twice.
+
+(* storing [new noise; old noise] instead is a different operator (witness: 1 + 1 points, 1/4 and 3) *)
+Theorem c12_fantasy_new_first_refuted :
+  exists (old new : nat -> Qc),
+    R_fixed (K:=QcF) 2%nat 2%nat (cat_fn (K:=QcF) 1%nat new old) None None O O
+    <> R_fantasy (K:=QcF) 1%nat 1%nat old new None O O.
+Proof. exact R_fantasy_new_first_refuted. Qed.
+Print Assumptions c12_fantasy_new_first_refuted.
+
 (* forwarding the call-time kwarg to the learned-noise module too (pinned snapshot of
    FixedNoiseGaussianLikelihood._shaped_noise_covar) violates the specification: witness
    noise = [2/5], learned 1/20 gives 4/5 instead of 9/20 *)
